@@ -103,10 +103,48 @@ func checkC04(p *Prog, r *Report) {
 				r.Bad("C04/CLEANUP", key, p.Pos(call.Pos()), "cannot identify the pending file / error results")
 				return
 			}
+			// the variable may live in a cell (captured by a function literal)
+			isOutVal := func(v ssa.Value) bool { return v == out || unwrapLocal(v) == out }
 			var def *ssa.Defer
 			allCalls(fn, func(d ssa.CallInstruction) {
-				if dd, ok := d.(*ssa.Defer); ok && calleeName(dd) == fnCleanup && dd.Common().Args[0] == out {
+				dd, ok := d.(*ssa.Defer)
+				if !ok {
+					return
+				}
+				if calleeName(dd) == fnCleanup && isOutVal(dd.Common().Args[0]) {
 					def = dd
+					return
+				}
+				// defer func() { … out.Cleanup() … }(): the literal calls Cleanup on the
+				// captured variable on every path to its returns
+				mc, isMC := dd.Common().Value.(*ssa.MakeClosure)
+				if !isMC {
+					return
+				}
+				lit := mc.Fn.(*ssa.Function)
+				for j, bv := range mc.Bindings {
+					cell, isCell := bv.(*ssa.Alloc)
+					if !isCell || unwrapLocal(cellLoadOf(cell)) != out {
+						continue
+					}
+					allCalls(lit, func(cc ssa.CallInstruction) {
+						if calleeName(cc) != fnCleanup {
+							return
+						}
+						ld, isLd := cc.Common().Args[0].(*ssa.UnOp)
+						if !isLd || ld.Op != token.MUL || ld.X != ssa.Value(lit.FreeVars[j]) {
+							return
+						}
+						all := true
+						for _, lb := range lit.Blocks {
+							if ret, isRet := lastInstr(lb).(*ssa.Return); isRet && !InstrDominates(cc, ret) {
+								all = false
+							}
+						}
+						if all {
+							def = dd
+						}
+					})
 				}
 			})
 			if def == nil {
@@ -133,7 +171,7 @@ func checkC04(p *Prog, r *Report) {
 			}
 			// RENAME-LAST
 			allCalls(fn, func(cl ssa.CallInstruction) {
-				if calleeName(cl) != fnCloseReplace || cl.Common().Args[0] != out {
+				if calleeName(cl) != fnCloseReplace || !isOutVal(cl.Common().Args[0]) {
 					return
 				}
 				bad := ""
@@ -293,4 +331,14 @@ func checkC04(p *Prog, r *Report) {
 	r.Trust("rename(2) atomicity inside renameio.CloseAtomicallyReplace and renameio.SymlinkRoot; os.Root.MkdirAll/mknodat create empty objects (absent→present, never partial)")
 	r.Assume("the window in which a non-regular object is unlinked to make room for a regular file leaves the path absent, which the statement allows (\"or is still absent\")")
 	r.Uncovered("temp-file removal when the session returns while the receiver goroutine is still blocked on the connection (deferred Cleanup runs only when that goroutine unblocks); kernel/renameio behaviour")
+}
+
+// cellLoadOf: some load of the local slot (nil-safe helper for unwrapLocal).
+func cellLoadOf(a *ssa.Alloc) ssa.Value {
+	for _, ref := range *a.Referrers() {
+		if ld, ok := ref.(*ssa.UnOp); ok && ld.Op == token.MUL {
+			return ld
+		}
+	}
+	return a
 }
